@@ -587,6 +587,25 @@ pub fn check_c15(r: &Runner, ctx: &mut Ctx, l: &mut Local, rec: &CaseRec) -> Res
 // =================================================================================
 
 fn written_slots(o: &Obs) -> Vec<(usize, [usize; 4])> {
+    // words that point into the buffer are normalised to offsets (tagged), so that runs
+    // on different copies of the buffer compare equal
+    let normw = |w: usize| -> usize {
+        if w >= o.buf_ptr && w <= o.buf_ptr + o.buf_len && o.buf_ptr != 0 {
+            (w - o.buf_ptr) | (1 << 62)
+        } else {
+            w
+        }
+    };
+    o.array_raw
+        .iter()
+        .zip(o.array_before.iter())
+        .enumerate()
+        .filter(|(_, (a, b))| a != b)
+        .map(|(i, (a, _))| (i, [normw(a[0]), normw(a[1]), normw(a[2]), normw(a[3])]))
+        .collect()
+}
+
+fn written_slots_raw(o: &Obs) -> Vec<(usize, [usize; 4])> {
     o.array_raw
         .iter()
         .zip(o.array_before.iter())
@@ -761,7 +780,7 @@ pub fn check_c17(r: &Runner, ctx: &mut Ctx, l: &mut Local, rec: &CaseRec) -> Res
     if !o.canary_ok {
         return Err(viol("C17/write-outside-array", "bytes next to the caller's array were overwritten".into(), rec));
     }
-    let wr = written_slots(&o);
+    let wr = written_slots_raw(&o);
     let in_buf = |w: &[usize; 4]| -> bool {
         // both fat pointers must be (ptr,len) pairs inside the buffer, or zero-length
         let inside = |p: usize, len: usize| len == 0 || (p >= o.buf_ptr && p + len <= o.buf_ptr + o.buf_len);
